@@ -1385,6 +1385,41 @@ func c05engineExtra(t *tr) string {
 			}
 		}
 		b.WriteString(c05eLeanPaths("instanceRunDefers", "regenerated from `(*instance).Run`: its deferred statements (`<result>` = the named result)", [][]string{ev}))
+		// … and the shooting loop.  `for !waiter.IsFinished(ctx) { err := func() error {…}(); if err != nil { return err } };
+		// return ctx.Err()`: the literal (one iteration) and the loop around it are walked separately
+		var body []ast.Stmt
+		var loop *ast.ForStmt
+		for _, st := range fd.Body.List {
+			if _, ok := st.(*ast.DeferStmt); !ok {
+				body = append(body, st)
+			}
+			if f, ok := st.(*ast.ForStmt); ok {
+				loop = f
+			}
+		}
+		var iterCall *ast.CallExpr
+		if loop != nil {
+			for _, st := range loop.Body.List {
+				if as, ok := st.(*ast.AssignStmt); ok && len(as.Rhs) == 1 {
+					if c, ok := as.Rhs[0].(*ast.CallExpr); ok && len(c.Args) == 0 {
+						if _, ok := c.Fun.(*ast.FuncLit); ok {
+							iterCall = c
+						}
+					}
+				}
+			}
+		}
+		if iterCall == nil {
+			x.fail(fd, "instance.Run is not `for … { err := func() error {…}(); … }`")
+		} else {
+			lit := iterCall.Fun.(*ast.FuncLit)
+			wi := walker(map[string]string{"Acquire": "", "Release": "", "Wait": "arg0", "IsSlowDown": "arg0", "Shoot": "", "Report": ""})
+			b.WriteString(c05eLeanPaths("instanceRunIter", "regenerated from `(*instance).Run`: one iteration of the shooting loop (the function literal called in the loop body)", wi.paths(lit.Body.List)))
+			iterCall.Fun = ast.NewIdent("‹iteration›")
+			wl := walker(map[string]string{"IsFinished": "arg0", "‹iteration›": "", "Err": "recv"})
+			b.WriteString(c05eLeanPaths("instanceRunLoop", "regenerated from `(*instance).Run`: the loop around the iteration (0 or 1 times) and what is returned; deferred statements left out", wl.paths(body)))
+			iterCall.Fun = lit
+		}
 	}
 	if fd := need("instancePool", "runAsync"); fd != nil {
 		w := walker(map[string]string{"WithCancel": "arg0", "buildNewInstanceSchedule": "", "Run": "recv+arg0", "startInstances": "arg0"})
